@@ -90,6 +90,10 @@ theorem jumps_agree :
 /-- TIE 4: every instruction the extractor could not summarise has a hand-written effect. -/
 theorem dyn_covered : Gen.dynNames.all (fun n => handNames.contains n) = true := by decide
 
+/-- TIE 4b: `binding.emitSetP` pops the ignored value of a sloppy const assignment (fix 5a4962f) — what
+`emitBindingSet` transcribes. -/
+theorem emitSetP_pops : Gen.setPPopsSloppyConst = true := by decide
+
 /-- TIE 5: the classifier's case lists. -/
 theorem exceptionFromValue_cases :
     Gen.exceptionFromValueCases = ["*Object", "Value", "*Exception", "typeError", "referenceError", "rangeError", "syntaxError"]
